@@ -257,3 +257,58 @@ def r133(ctx, rep):
     c12.r121(ctx, rep, rule="R13.3")
     from .c11 import r114
     r114(ctx, rep, rule="R13.3")
+
+
+# ---------------------------------------------------------------------------
+def r134(ctx, rep):
+    """Shifting the base point by s keeps the same quadratic only if the
+    explicit Hessian absorbs  s v' + v s'  with  v = sum_k lambda_k (y_k - s/2):
+    the implicit part sum_k lambda_k y_k y_k' changes by -s (sum l y)' - (sum l y) s'
+    + (sum l) s s'.  The half shift is what accounts for the last term; it only
+    vanishes for freshly built models (sum lambda = 0)."""
+    from ..inline import expander
+    f = ctx.func(f"{Q}.shift_x_base")
+    inl = expander(ctx, f)
+    upd = None
+    for node in ast.walk(f.node):
+        if isinstance(node, ast.AugAssign) and isinstance(node.op, ast.Add) and mentions(node.target, "_e_hess"):
+            upd = node
+    if upd is None:
+        raise AnalysisError("Quadratic.shift_x_base: update of the explicit Hessian not found")
+    v = inl.expand(upd.value, upd)
+    # operands multiplied with the implicit Hessian
+    prods = [n for n in ast.walk(v) if isinstance(n, ast.BinOp) and isinstance(n.op, ast.MatMult) and mentions(n.right, "_i_hess")]
+    if not prods:
+        raise AnalysisError("Quadratic.shift_x_base: product with the implicit Hessian not found in the update of the explicit Hessian")
+    for pr in prods:
+        left = pr.left
+        desc = f"{f.local}:{upd.lineno} e_hess += s v' + v s' with v = ({norm(left)[:50]}) @ i_hess"
+        half = False
+        if isinstance(left, ast.BinOp) and isinstance(left.op, ast.Sub) and mentions(left.left, "xpt"):
+            r = left.right
+            # 0.5 * shift[..]  /  shift[..] * 0.5  /  shift[..] / 2
+            if isinstance(r, ast.BinOp) and isinstance(r.op, ast.Mult) and ((const_value(r.left) == 0.5 and mentions(r.right, "shift", "new_x_base")) or (const_value(r.right) == 0.5 and mentions(r.left, "shift", "new_x_base"))):
+                half = True
+            if isinstance(r, ast.BinOp) and isinstance(r.op, ast.Div) and const_value(r.right) in (2, 2.0) and mentions(r.left, "shift", "new_x_base"):
+                half = True
+            if half:
+                rep.ok("R13.4", desc + " (points taken relative to half the shift)")
+                continue
+            rep.bad("R13.4", desc)
+            rep.finding("R13.4", f, norm(upd)[:120], upd.lineno, f"the points are corrected by `{norm(r)[:40]}` instead of half the shift: the shifted model is a different quadratic whenever the implicit weights do not sum to zero (after any update)")
+        elif mentions(left, "xpt") and not mentions(v, "sum"):
+            rep.bad("R13.4", desc)
+            rep.finding("R13.4", f, norm(upd)[:120], upd.lineno,
+                        "the correction of the explicit Hessian uses the interpolation points without the half-shift term (xpt - 0.5 * s): the term (sum lambda) s s' of the shifted implicit Hessian is lost, "
+                        "so value, gradient and Hessian of the model change under a base shift once an update has made the implicit weights sum to a non-zero value")
+        else:
+            raise AnalysisError(f"Quadratic.shift_x_base: unfamiliar form of the explicit-Hessian correction `{norm(left)[:60]}`")
+
+
+_old_run13 = run
+
+
+def run(ctx, rep):  # noqa: F811
+    _old_run13(ctx, rep)
+    rep.rule("R13.4", "base shift: the explicit Hessian absorbs s v' + v s' with v = (xpt - s/2) @ i_hess")
+    r134(ctx, rep)
